@@ -183,15 +183,19 @@ theorem code_matches_model :
       "return c, err"] ∧
     Gen.Upstream.createClient =
       ["u.clientsMu.Lock()",
-      "defer u.clientsMu.Unlock()",
-      "select { case <-u.quit: return nil, errors.New(upstreamExited) default: }",
+      "select { case <-u.quit: u.clientsMu.Unlock() return nil, errors.New(upstreamExited) default: }",
       "c, ok := u.loadClients()[addr]",
+      "u.clientsMu.Unlock()",
       "if ok { return c, nil }",
       "conn, err := netutil.Dial(\"tcp\", addr, *u.cfg.ConnectTimeout)",
       "if err != nil { return nil, err }",
       "options := []clientOption{ withKeyCounter(u.hkc.AllocCounter(addr)), withRedirectionCb(u.handleRedirection), withClusterDownCb(u.handleClusterDown), }",
       "c, err = newClient(conn, u.cfg, u.logger, options...)",
-      "if err != nil { return nil, err }",
+      "if err != nil { conn.Close() return nil, err }",
+      "u.clientsMu.Lock()",
+      "defer u.clientsMu.Unlock()",
+      "select { case <-u.quit: conn.Close() return nil, errors.New(upstreamExited) default: }",
+      "if existing, ok := u.loadClients()[addr]; ok { conn.Close() return existing, nil }",
       "go func() { c.Start() u.removeClient(addr) }()",
       "u.addClientLocked(addr, c)",
       "return c, nil"] ∧
